@@ -51,6 +51,29 @@ type Canary struct {
 	max  atomic.Int64
 	stop chan struct{}
 	wg   sync.WaitGroup
+	mu   sync.Mutex
+	big  []stallRec // oversleeps above 2 ms, with the time they ended
+}
+
+type stallRec struct {
+	at   time.Time
+	over time.Duration
+}
+
+// StallSince returns the worst oversleep that ended after t.
+func (c *Canary) StallSince(t time.Time) time.Duration {
+	c.mu.Lock()
+	defer c.mu.Unlock()
+	var w time.Duration
+	for i := len(c.big) - 1; i >= 0; i-- {
+		if c.big[i].at.Before(t) {
+			break
+		}
+		if c.big[i].over > w {
+			w = c.big[i].over
+		}
+	}
+	return w
 }
 
 // StartCanary starts measuring.
@@ -68,6 +91,11 @@ func StartCanary() *Canary {
 			t0 := time.Now()
 			time.Sleep(time.Millisecond)
 			over := time.Since(t0) - time.Millisecond
+			if over > 2*time.Millisecond {
+				c.mu.Lock()
+				c.big = append(c.big, stallRec{time.Now(), over})
+				c.mu.Unlock()
+			}
 			for {
 				cur := c.max.Load()
 				if int64(over) <= cur || c.max.CompareAndSwap(cur, int64(over)) {
